@@ -201,7 +201,17 @@ func runCase(r *hx.Run, c hx.Case) {
 	}
 	var prev []byte
 	var cachedB [3]string
-	for render := 1; render <= 2; render++ {
+	for render := 1; render <= 3; render++ {
+		if render == 3 {
+			// the message is edited after it has been rendered (the signature part of the earlier renders is
+			// still in the part list, now no longer last) and rendered again: it is a message that can be built
+			if hdrvar == "afterskip" || len(parts) == 0 {
+				break
+			}
+			extra := bytex.PartSpec{CType: "text/x-added", Enc: msgenc, Prod: bytex.Producer{Chunks: [][]byte{[]byte("added after the first render\r\n")}}}
+			m.AddAlternativeWriter(mail.ContentType(extra.CType), extra.Prod.Write, mail.WithPartEncoding(mail.Encoding(msgenc)))
+			spec.Parts = append(spec.Parts, extra)
+		}
 		desc := ""
 		if modelSpec != nil {
 			desc = bytex.Describe(m, modelSpec, cachedB, nil)
@@ -222,7 +232,7 @@ func runCase(r *hx.Run, c hx.Case) {
 				bm, br, ba := bytex.Boundaries(sink.Accepted)
 				var rb [][]byte
 				for _, b := range []string{bm, br, ba} {
-					if b != "" {
+					if b != "" { // positional: one per multipart writer opened (a cached boundary overrides the drawn one)
 						rb = append(rb, []byte(b))
 					}
 				}
